@@ -1,6 +1,7 @@
 import AlgoVerif.Proofs.C10Main
 import AlgoVerif.Proofs.C10Term
 import AlgoVerif.Proofs.C10TableEq
+import AlgoVerif.Proofs.C10Ext
 /-!
 # C10 — FIRST, FOLLOW and nullable are exact; the LL(1) verdict matches the predictive table
 
@@ -117,6 +118,45 @@ theorem C10_ll1_iff_conflict_free (g : Grammar T N) (hv : validB g = true) (hnd 
     have hbad := s.ll1Bad.2 ((ll1Errors_ne_nil_iff hnd).1 hl)
     exact (conflicts_ne_nil_iff hnd).2 (ll1Bad_conflict h₁ h₂ hv hreach hprod hT hbad) hc
 
+/-! ### what the statements above take for granted: `Verify()`, no nil dereference, the memo table, the accessors -/
+
+/-- `Verify()` returns nil (`validB`) exactly when the list of errors it collects (`verifyErrors`, compared with
+the implementation's on every malformed grammar the generators produce) is empty. -/
+theorem C10_verify_errors_iff_valid (g : Grammar T N) : verifyErrors g = [] ↔ validB g = true :=
+  verifyErrors_nil_iff g
+
+/-- **On a grammar that passes `Verify()` no table lookup of `NullableNonTerminals`, `ComputeFIRST`,
+`ComputeFOLLOW` misses**: the Model of the three functions on arbitrary grammars (`nullableP`, `analyseP`, which
+answer `panic` where the Go code dereferences the nil result of a lookup — corresponded on malformed grammars)
+coincides with the Model the theorems above are about, for every iteration order. -/
+theorem C10_valid_grammar_never_panics (g : Grammar T N) (hv : validB g = true) (o₁ o₂ : IterOrder T N)
+    (h₁ : o₁.Fair) (h₂ : o₂.Fair) :
+    analyseP g o₁ o₂ = analyse g o₁ o₂ ∧ nullableP g o₁ = nullable g o₁ ∧ ∃ an, analyseP g o₁ o₂ = .ok an := by
+  refine ⟨analyseP_eq_analyse hv h₁ h₂, nullableP_eq_nullable hv h₁, ?_⟩
+  rw [analyseP_eq_analyse hv h₁ h₂]
+  exact analyse_terminates hv h₁ h₂
+
+/-- **The memo table of the FIRST closure is transparent**: as long as the closure is called with declared
+symbols only, every call — computed or answered from the table — returns `firstStr fi α`, the value
+`C10_first_exact` is about, and the table stays good.  (A call that reaches an undeclared symbol panics and leaves
+its partial value in the table; `firstCall` models that too, and the correspondence exercises it.) -/
+theorem C10_first_memo_transparent (g : Grammar T N) (fi : N → TE T) (memo : FirstMemo T N)
+    (α : List (Sym T N)) (hm : MemoGood fi memo) (hα : ∀ X, X ∈ α → symDeclared g X = true) :
+    (firstCall g fi memo α).1 = .ok (firstStr fi α) ∧ MemoGood fi (firstCall g fi memo α).2 :=
+  firstCall_good g fi memo α hm hα
+
+/-- **`IsEmpty` and `GetProduction` read the cells**: on the table `BuildParsingTable` builds for a duplicate-free
+production list, `IsEmpty(A,a)` says whether `cell g fi fo A a` is empty and `GetProduction(A,a)` returns its
+production exactly when it holds one. -/
+theorem C10_accessors_read_cells (g : Grammar T N) (hnd : g.prods.Nodup) (fi : List (Sym T N) → TE T)
+    (fo : N → TEnd T) (rows : List N) (A : N) (a : Option T) :
+    (cellInfo (buildTable fi fo g.prods rows) A a).1 = (cell g fi fo A a).isEmpty ∧
+    (cellInfo (buildTable fi fo g.prods rows) A a).2.2 = (match cell g fi fo A a with
+      | [p] => some p
+      | _ => none) := by
+  rw [cellInfo_isEmpty, cellInfo_getProduction, tcell_eq_cell hnd]
+  exact ⟨rfl, rfl⟩
+
 end
 
 /-! ## the hypotheses are satisfiable on a non-trivial grammar
@@ -177,3 +217,33 @@ example : Spec.AllProductive C10ex := by
   · exact ⟨[], hA⟩
   · exact ⟨[], hB⟩
 
+
+/-! ### the second part on examples -/
+
+/-- a malformed grammar: start symbol `7` undeclared, non-terminal `2` without production, head `5` undeclared,
+terminal `9` and non-terminal `8` undeclared in a body -/
+def C10bad : Grammar Nat Nat :=
+  { terms := [0, 1], nonterms := [0, 1, 2], start := 7,
+    prods := [⟨0, [.term 0, .nonterm 1, .term 9]⟩, ⟨1, []⟩, ⟨5, [.nonterm 8]⟩] }
+
+example : verifyErrors C10bad =
+    [.startUndeclared, .noStartProd, .noProd 2, .termUndeclared 9, .headUndeclared 5, .nontermUndeclared 8] := by decide
+example : validB C10bad = false := by decide
+/-- `ComputeFIRST` dereferences nil on it (the undeclared head) -/
+example : analyseP C10bad IterOrder.canon IterOrder.canon = .panic := rfl
+/-- `S → a A z`, `A → ε` with `z` undeclared: `ComputeFIRST` returns (it stops at `a`), `ComputeFOLLOW` asks the
+closure for FIRST(`z`) and panics -/
+def C10bad2 : Grammar Nat Nat :=
+  { terms := [0], nonterms := [0, 1], start := 0, prods := [⟨0, [.term 0, .nonterm 1, .term 9]⟩, ⟨1, []⟩] }
+example : (∃ fi, computeFirstP C10bad2 IterOrder.canon = .ok fi) ∧
+    analyseP C10bad2 IterOrder.canon IterOrder.canon = .panic := ⟨⟨_, rfl⟩, rfl⟩
+
+/-- the memo table: FIRST(`A z`) with `z` undeclared panics behind the nullable `A` and leaves `{a}` without ε in the
+table, which the second call returns; with declared symbols the table is transparent -/
+example : ∃ an, analyse C10ex IterOrder.canon IterOrder.canon = .ok an ∧
+    (firstCall C10ex an.first [] [.nonterm 1, .term 9]).1 = .panic ∧
+    (firstCall C10ex an.first (firstCall C10ex an.first [] [.nonterm 1, .term 9]).2 [.nonterm 1, .term 9]).1
+      = .ok ⟨[0], false⟩ ∧
+    (firstCall C10ex an.first [] [.nonterm 1, .term 1]).1 = .ok ⟨[0, 1], false⟩ ∧
+    MemoGood an.first ([] : FirstMemo Nat Nat) :=
+  ⟨_, rfl, by decide, by decide, by decide, fun _ _ h => by cases h⟩
